@@ -1,0 +1,14 @@
+//go:build !verif
+
+// Package verifcrash: crash points for the verification harness; no-ops without the build tag verif.
+package verifcrash
+
+import "io"
+
+func Point(name string) {}
+
+func TornWrite(name, path string, data []byte) {}
+
+func TornCopy(name, dstPath string, src io.ReadCloser) io.ReadCloser { return src }
+
+func TornExtracted(name, dir string, skip ...string) {}
